@@ -15,3 +15,15 @@ let hex_of_zlist (l : z list) : string =
   let b = Buffer.create 64 in List.iter (fun x -> Buffer.add_string b (Printf.sprintf "%02x" ((int_of_z x) land 255))) l; Buffer.contents b
 let ints_of_zlist l = String.concat "," (List.map zs l)
 let iter_lines f = try while true do f (input_line stdin) done with End_of_file -> ()
+(* arbitrary-size decimal printing of the extracted binary numbers (no bignum library needed):
+   walk the bits from the most significant one, doubling a little-endian decimal digit array *)
+let big_string_of_pos (p : positive) : string =
+  let rec bits acc = function XH -> 1 :: acc | XO q -> bits (0 :: acc) q | XI q -> bits (1 :: acc) q in
+  let digits = ref [0] in
+  let double_add b =
+    let carry = ref b in
+    digits := List.map (fun d -> let v = 2 * d + !carry in carry := v / 10; v mod 10) !digits;
+    if !carry > 0 then digits := !digits @ [!carry] in
+  List.iter double_add (bits [] p);
+  String.concat "" (List.rev_map string_of_int !digits)
+let big_zs (x : z) : string = match x with Z0 -> "0" | Zpos p -> big_string_of_pos p | Zneg p -> "-" ^ big_string_of_pos p
